@@ -54,10 +54,8 @@ class MainLoop:
         return self.loop in self.cfg.enclosing_loops(node)
 
     def assigned_name(self, node) -> Optional[str]:
-        st = node.ast
-        if isinstance(st, ast.Assign) and len(st.targets) == 1 and isinstance(st.targets[0], ast.Name):
-            return st.targets[0].id
-        return None
+        from .common import def_target
+        return def_target(node)
 
     def model_arg(self, phase) -> Optional[ast.expr]:
         cs = self.calls[phase][0]
@@ -212,13 +210,38 @@ def _break_nodes(ml: MainLoop):
     return out
 
 
+def _conjuncts(fl: Flow, test: ast.expr, pol: bool, at, depth=0):
+    """Resolve a branch test (through temporaries, `not`, and and/or under De Morgan) into the comparisons that hold on the
+    branch: list of (Compare node, polarity, node at which the comparison is evaluated)."""
+    if depth > 8:
+        return []
+    if isinstance(test, ast.UnaryOp) and isinstance(test.op, ast.Not):
+        return _conjuncts(fl, test.operand, not pol, at, depth + 1)
+    if isinstance(test, ast.BoolOp):
+        if (isinstance(test.op, ast.And) and pol) or (isinstance(test.op, ast.Or) and not pol):
+            out = []
+            for v in test.values:
+                out += _conjuncts(fl, v, pol, at, depth + 1)
+            return out
+        return [(test, pol, at)]      # a disjunction: kept whole (it is not a conjunct we can use)
+    if isinstance(test, ast.Name):
+        ds = fl.rd.reaching(at, test.id)
+        if len(ds) == 1 and ds[0].kind == "stmt":
+            from .common import def_value
+            v = def_value(ds[0])
+            if v is not None:
+                return _conjuncts(fl, v, pol, ds[0], depth + 1)
+        return [(test, pol, at)]
+    return [(test, pol, at)]
+
+
 @rule("C09", "R3", "FLOW", "the only early exit is guarded by equality of this round's labels with the previous round's", floor=3)
 def r3(ctx):
     ana = ctx.ana
     ml = MainLoop(ana)
     fi, cfg, rd = ml.fi, ml.cfg, ml.rd
+    fl = Flow(ana, fi)
     rel = ml.phase_node("relabel")
-    state = ml.assigned_name(rel)
     breaks = _break_nodes(ml)
     rets = [n for n in cfg.nodes if n.kind == "stmt" and isinstance(n.ast, ast.Return) and ml.in_loop(n)]
     ctx.check(not rets, fi, "no return inside the round loop", role="exit:return", line=rets[0].lineno if rets else 0,
@@ -227,24 +250,25 @@ def r3(ctx):
         ctx.fail(fi, "the round loop has no fixed-point break (it always runs iteration_limit rounds, but must stop at a fixed point)",
                  line=ml.loop.lineno, role="exit:break-missing", expected="break when labels repeat")
         return
+    base = {(id(o), p) for (_t, p, o) in cfg.guards(ml.body_entry)}
     for bn in breaks:
-        gs = [g for g in cfg.guards(bn) if (id(g[2]), g[1]) not in {(id(o), p) for (_t, p, o) in cfg.guards(ml.body_entry)}]
-        # find an equality conjunct, positive polarity
+        gs = [g for g in cfg.guards(bn) if (id(g[2]), g[1]) not in base]
         eq = None
+        shown = []
         for test, pol, owner in gs:
-            cands = [test] if not isinstance(test, ast.BoolOp) else (test.values if isinstance(test.op, ast.And) and pol else [])
-            for c in cands:
-                if isinstance(c, ast.Compare) and len(c.ops) == 1 and ((isinstance(c.ops[0], ast.Eq) and pol) or (isinstance(c.ops[0], ast.NotEq) and not pol)):
-                    eq = (c, owner)
+            tnode0 = cfg.stmt_node[id(owner)]
+            for c, cpol, cat in _conjuncts(fl, test, pol, tnode0):
+                shown.append(("" if cpol else "not ") + unparse(c, 60))
+                if isinstance(c, ast.Compare) and len(c.ops) == 1 and ((isinstance(c.ops[0], ast.Eq) and cpol) or (isinstance(c.ops[0], ast.NotEq) and not cpol)):
+                    eq = (c, cat)
         if eq is None:
             ctx.fail(fi, "break is not guarded by an equality test on labellings", line=bn.lineno, role="exit:break-guard",
-                     expected="if previous_labels == state.point_labels: break", found="; ".join(unparse(t) for t, _p, _o in gs))
+                     expected="if previous_labels == state.point_labels: break", found="; ".join(shown))
             continue
-        cmp_, owner = eq
-        tnode = cfg.stmt_node[id(owner)]
+        cmp_, tnode = eq
         sides = [cmp_.left, cmp_.comparators[0]]
-        cur = [s for s in sides if isinstance(s, ast.Attribute) and s.attr in ("point_labels", "_point_labels") and isinstance(s.value, ast.Name)]
-        prev = [s for s in sides if isinstance(s, ast.Name)]
+        cur = [x for x in sides if isinstance(x, ast.Attribute) and x.attr in ("point_labels", "_point_labels") and isinstance(x.value, ast.Name)]
+        prev = [x for x in sides if isinstance(x, ast.Name)]
         if len(cur) != 1 or len(prev) != 1:
             ctx.fail(fi, "fixed-point test does not compare <state>.point_labels with a saved labelling", line=cmp_.lineno,
                      role="exit:break-guard", expected="previous == state.point_labels", found=unparse(cmp_))
@@ -257,27 +281,31 @@ def r3(ctx):
         pdefs = rd.reaching(tnode, prev.id)
         inloop = [d for d in pdefs if ml.in_loop(d)]
         outloop = [d for d in pdefs if not ml.in_loop(d)]
-        init_ok = len(outloop) == 1 and isinstance(outloop[0].ast, ast.Assign) and isinstance(outloop[0].ast.value, ast.Constant) \
-            and outloop[0].ast.value.value is None
+        from .common import def_value
+        init_ok = len(outloop) == 1 and isinstance(def_value(outloop[0]), ast.Constant) and def_value(outloop[0]).value is None
         ctx.check(init_ok, fi, "before the first round the saved labelling is None (never equal to a labelling)", line=cmp_.lineno,
                   role="exit:prev-init", expected=f"{prev.id} = None before the loop",
                   found=f"initial definition(s) at line(s) {[d.lineno for d in outloop]}")
-        ok = len(inloop) == 1
+        ok = len(inloop) == 1 and def_value(inloop[0]) is not None
         why = f"{len(inloop)} in-loop definitions"
         if ok:
             d = inloop[0]
-            fl = Flow(ana, fi)
-            dep = fl.closure(d.ast.value, d)
+            dep = fl.closure(def_value(d), d)
             src_ok = any(a.endswith(".point_labels") or a.endswith("._point_labels") for a in dep.attrs)
             st_defs = set()
             for nm in dep.names:
                 if ana.res.type_of(fi, ast.Name(id=nm, ctx=ast.Load())) == MODEL_STATE:
                     st_defs |= {x.id for x in rd.reaching(d, nm)}
             ok = src_ok and st_defs == {rel.id}
-            why = f"saved value {unparse(d.ast.value)} (state defs at lines {sorted(cfg.nodes[i].lineno for i in st_defs)})"
+            why = f"saved value {unparse(def_value(d))} (state defs at lines {sorted(cfg.nodes[i].lineno for i in st_defs)})"
             after = cfg.dominates(tnode, d)
             ctx.check(after, fi, "the labelling is saved after the fixed-point test of its round", line=d.lineno, role="exit:prev-after-test",
                       expected="save after the test (so the test compares with the previous round)", found="saved before the test")
+            # and it is saved on every path that continues to the next round
+            skip = cfg.paths_avoiding(tnode, {d.id}, {ml.header.id}, kinds=("n",))
+            ctx.check(skip is None, fi, "every round that does not stop saves its labelling for the next comparison", line=d.lineno,
+                      role="exit:prev-every-round", expected="no path from the test to the next round that skips the save",
+                      found="a path to the next round without saving")
         ctx.check(ok, fi, "the saved labelling is (a copy of) the labels produced by relabel in that round", line=cmp_.lineno,
                   role="exit:prev-source", expected="previous = copy(state.point_labels) with state from relabel", found=why)
 
